@@ -474,6 +474,7 @@ fn run_held(a: &str, stage: u64, bs: &[&str], env: &Env, st: &mut Stats) -> Case
     st.eval();
     st.hist(&format!("held:stage{}", stage));
     let doc = run_child_json(&scenario, env, st)?;
+    st.sample(|| json!({"scenario": scenario, "observed": {"a": doc["a"], "a_was_parked": doc["a_was_parked"], "b": doc["b"]}}));
     let mut all: Vec<String> = vec![a.to_string()];
     all.extend(bs.iter().map(|s| s.to_string()));
     if doc["a_was_parked"].as_bool() == Some(true) && bs.iter().any(|b| b.starts_with("exec") || b.starts_with("parse")) {
@@ -493,6 +494,7 @@ fn run_race(calls: &[&str], env: &Env, st: &mut Stats) -> CaseResult {
     st.eval();
     st.hist(&format!("race:{}threads", calls.len()));
     let doc = run_child_json(&scenario, env, st)?;
+    st.sample(|| json!({"scenario": scenario, "observed": doc["b"]}));
     let all: Vec<String> = calls.iter().map(|s| s.to_string()).collect();
     let mut distinct = all.clone();
     distinct.sort();
@@ -556,6 +558,7 @@ fn run_regrace(kind: &str, text_idx: usize, threads: usize, iters: u64, directed
     st.eval();
     st.hist(&format!("regrace:{}:{}", kind, if directed { "directed" } else { "free" }));
     let doc = run_child_json(&scenario, env, st)?;
+    st.sample(|| json!({"scenario": scenario, "observed": doc}));
     if directed {
         let r = match doc["results"][0].as_str() {
             Some(r) => r.to_string(),
